@@ -29,11 +29,7 @@ use timestamps::{creation_timestamp_of_currentfile, infix_from_timestamp, latest
 const ASYNC_FLUSHER: &str = "flexi_logger-fs-async_flusher";
 
 #[cfg(feature = "async")]
-use {
-    crate::util::{ASYNC_FLUSH, ASYNC_SHUTDOWN},
-    crossbeam_channel::Sender as CrossbeamSender,
-    crossbeam_queue::ArrayQueue,
-};
+use {crossbeam_channel::Sender as CrossbeamSender, crossbeam_queue::ArrayQueue};
 
 #[cfg(feature = "async")]
 const ASYNC_WRITER: &str = "flexi_logger-async_file_writer";
@@ -747,13 +743,22 @@ fn get_current_timestamp() -> DateTime<Local> {
     Local::now()
 }
 
+// What travels to the async writer thread: requests are distinguished from data by type,
+// not by content, so that data can be arbitrary bytes.
+#[cfg(feature = "async")]
+pub(super) enum AsyncMessage {
+    Data(Vec<u8>),
+    Flush,
+    Shutdown,
+}
+
 #[cfg(feature = "async")]
 pub(super) fn start_async_fs_writer(
     am_state: Arc<Mutex<State>>,
     message_capa: usize,
     a_pool: Arc<ArrayQueue<Vec<u8>>>,
-) -> (CrossbeamSender<Vec<u8>>, Mutex<Option<JoinHandle<()>>>) {
-    let (sender, receiver) = crossbeam_channel::unbounded::<Vec<u8>>();
+) -> (CrossbeamSender<AsyncMessage>, Mutex<Option<JoinHandle<()>>>) {
+    let (sender, receiver) = crossbeam_channel::unbounded::<AsyncMessage>();
     (
         sender,
         Mutex::new(Some(
@@ -766,27 +771,27 @@ pub(super) fn start_async_fs_writer(
                     let _done = crate::verif_hooks::SchedGuard("async_done");
                     match receiver.recv() {
                         Err(_) => break,
-                        Ok(mut message) => {
+                        Ok(message) => {
                             let mut state = am_state.lock().unwrap(/* ok */);
-                            match message.as_ref() {
-                                ASYNC_FLUSH => {
+                            match message {
+                                AsyncMessage::Flush => {
                                     state.flush().unwrap_or_else(|e| {
                                         eprint_err(ErrorCode::Flush, "flushing failed", &e);
                                     });
                                 }
-                                ASYNC_SHUTDOWN => {
+                                AsyncMessage::Shutdown => {
                                     state.shutdown();
                                     break;
                                 }
-                                _ => {
-                                    state.write_buffer(&message).unwrap_or_else(|e| {
+                                AsyncMessage::Data(mut buffer) => {
+                                    state.write_buffer(&buffer).unwrap_or_else(|e| {
                                         eprint_err(ErrorCode::Write, "writing failed", &e);
                                     });
+                                    if buffer.capacity() <= message_capa {
+                                        buffer.clear();
+                                        a_pool.push(buffer).ok();
+                                    }
                                 }
-                            }
-                            if message.capacity() <= message_capa {
-                                message.clear();
-                                a_pool.push(message).ok();
                             }
                         }
                     }
@@ -817,7 +822,7 @@ pub(super) fn start_sync_flusher(am_state: Arc<Mutex<State>>, flush_interval: st
 
 #[cfg(feature = "async")]
 pub(crate) fn start_async_fs_flusher(
-    async_writer: CrossbeamSender<Vec<u8>>,
+    async_writer: CrossbeamSender<AsyncMessage>,
     flush_interval: std::time::Duration,
 ) {
     let builder = std::thread::Builder::new().name(ASYNC_FLUSHER.to_string());
@@ -833,7 +838,7 @@ pub(crate) fn start_async_fs_flusher(
                     break;
                 }
 
-                async_writer.send(ASYNC_FLUSH.to_vec()).ok();
+                async_writer.send(AsyncMessage::Flush).ok();
             }
         })
         .unwrap(/* yes, let's panic if the thread can't be spawned */);
